@@ -106,11 +106,11 @@ PROPS["C08"] = {
 
 PROPS["C02"] = {
     "level": "proof",
-    "verus": [{"unit": "recognisers", "rlimit": 200}, {"unit": "decoder", "rlimit": 300}, {"unit": "decoder_inplace", "rlimit": 300}, {"unit": "serde_access", "rlimit": 200}, {"unit": "typed_de", "rlimit": 300}],
+    "verus": [{"unit": "recognisers", "rlimit": 200}, {"unit": "decoder", "rlimit": 300}, {"unit": "decoder_inplace", "rlimit": 300}, {"unit": "serde_access", "rlimit": 200}, {"unit": "typed_de", "rlimit": 300}, {"unit": "strings", "rlimit": 200}],
     "kani": K_STRTAB + K_WS,
     "trusted_base": [T1, T2, T3, T4, T6, T8, VSTD, KANI, PERR,
-                     "UTF-8 prevalidation (simdutf8) in Read::new_in is T4",
-                     "fully-decoding half: parse_value2/parse_array2/parse_object2 are proved; their leaves Parser::parse_number (wrapper around the verified sonic_number::parse_number) and parse_str (scanning half verified in unit strings) enter through assumed contracts; surrogate pairing / float finiteness make the decoder reject MORE than the grammar, which the statement permits",
+                     "UTF-8 prevalidation (simdutf8) in Read::new_in is T4: the reader's marker `next_invalid` (offset of the first invalid byte the validation found) enters as an uninterpreted reader state; proved on top of it: Parser::check_invalid_utf8, parse_str (an accepted literal in the default configuration leaves no invalid UTF-8 in the consumed part) and Deserializer::deserialize (a document is handed out only if the consumed part is clean, whatever the target type skipped: F22)",
+                     "fully-decoding half: parse_value2/parse_array2/parse_object2 are proved; their leaves Parser::parse_number (wrapper around the verified sonic_number::parse_number) and parse_str (both proved for the real functions in units typed_num / strings; what stays assumed is the decoded text of the copying half, parse_string_escaped) enter through contracts restated in the decoder units; surrogate pairing / float finiteness make the decoder reject MORE than the grammar, which the statement permits",
                      "serde SeqAccess::next_element_seed / MapAccess::next_key_seed / next_value_seed / end_map / end_seq: the comma-colon machine is proved to start the (arbitrary) element deserializer only at the grammar-prescribed position and to reject every other separator situation; the element deserializers themselves are programs (C04) and the per-type entry points of `impl Deserializer` are not under contract",
                      "the in-place twin parse_dom/parse_value/parse_array/parse_object (DOM whole-input path) is proved in unit decoder_inplace under T9; the reader contract T1 is assumed for PaddedSliceRead (raw pointers, 64 bytes of padding)", T9],
     "level_text": "Verus proof that the fully-decoding parsers — copy-out parse_value2/parse_array2/parse_object2 and in-place parse_dom/parse_value/parse_array/parse_object (the from_str::<Value> path) — succeed only on, and consumes exactly, the grammar it is specified to consume, that this grammar followed by the trailing check is exactly RFC 8259 (theorem_text_l_is_rfc8259), and — for every input and length — that the validate-and-skip recogniser (skip_one, skip_array, skip_object, skip_string, skip_escaped_chars, skip_number, parse_literal, skip_space incl. its SIMD cache, parse_trailing) returns Ok iff the RFC 8259 grammar (specs/json_grammar.rs) matches, with the exact end offset; the table/lane contracts it assumes are discharged by Kani",
